@@ -147,6 +147,21 @@ var c07FixedCells = []c07FixedCell{
 	{"host-method-expression", "var p = hostlib.Pt{X: 1, Y: 1}\n", func(ev func(string) (reflect.Value, error)) (string, string) {
 		return c07Str(ev, "func() string { g := hostlib.Pt.Add; return hostlib.Show(g(p, hostlib.Pt{}, 1)) }()"), hostlib.Show(hostlib.Pt{X: 2, Y: 1})
 	}},
+	{"named-type-params-untyped-constants", "const lbl = \"k\"\nconst half = 0.5\nconst yes = true\n", func(ev func(string) (reflect.Value, error)) (string, string) {
+		return c07Str(ev, "hostlib.TakeLabel(\"a\") + hostlib.TakeLabel(lbl) + hostlib.TakeLabel(lbl + \"z\") + hostlib.TakeRatio(1.5) + hostlib.TakeRatio(half) + hostlib.TakeRatio(half * 3) + hostlib.TakeRatio(2) + hostlib.TakeFlag(true) + hostlib.TakeFlag(yes) + hostlib.TakeFlag(!yes)"),
+			hostlib.TakeLabel("a") + hostlib.TakeLabel("k") + hostlib.TakeLabel("kz") + hostlib.TakeRatio(1.5) + hostlib.TakeRatio(0.5) + hostlib.TakeRatio(1.5) + hostlib.TakeRatio(2) + hostlib.TakeFlag(true) + hostlib.TakeFlag(true) + hostlib.TakeFlag(false)
+	}},
+	{"named-bool-param-untyped-bool-expression", "const yes = true\n", func(ev func(string) (reflect.Value, error)) (string, string) {
+		return c07Str(ev, "hostlib.TakeFlag(yes && true) + hostlib.TakeFlag(!yes || 1 < 2) + hostlib.TakeFlag(1 < 2)"), hostlib.TakeFlag(true) + hostlib.TakeFlag(true) + hostlib.TakeFlag(true)
+	}},
+	{"named-type-variadic-and-method-untyped-constants", "const lbl = \"k\"\n", func(ev func(string) (reflect.Value, error)) (string, string) {
+		return c07Str(ev, "hostlib.Labels(1) + hostlib.Labels(2, \"a\") + hostlib.Labels(3, \"a\", lbl, hostlib.Label(\"c\")) + (&hostlib.Rec{Name: \"r\"}).Tag(\"t\", 0.25) + (&hostlib.Rec{Name: \"s\"}).Tag(lbl, 3)"),
+			hostlib.Labels(1) + hostlib.Labels(2, "a") + hostlib.Labels(3, "a", "k", "c") + (&hostlib.Rec{Name: "r"}).Tag("t", 0.25) + (&hostlib.Rec{Name: "s"}).Tag("k", 3)
+	}},
+	{"named-type-params-variables-and-conversions", "", func(ev func(string) (reflect.Value, error)) (string, string) {
+		return c07Str(ev, "func() string { s := \"v\"; f := 2.5; b := false; l := hostlib.Label(s); return hostlib.TakeLabel(l) + hostlib.TakeLabel(hostlib.Label(s+\"w\")) + hostlib.TakeRatio(hostlib.Ratio(f)) + hostlib.TakeFlag(hostlib.Flag(b)) + hostlib.Labels(0, l, l) }()"),
+			hostlib.TakeLabel("v") + hostlib.TakeLabel("vw") + hostlib.TakeRatio(2.5) + hostlib.TakeFlag(false) + hostlib.Labels(0, "v", "v")
+	}},
 	{"host-method-chained-on-result", "", func(ev func(string) (reflect.Value, error)) (string, string) {
 		return c07Str(ev, "(&hostlib.Rec{}).SetName(\"a\").SetName(\"b\").Name + hostlib.NewNamer(4).Name() + hostlib.ID(5).Name()"), "bid4id5"
 	}},
